@@ -71,7 +71,7 @@ struct Env {
 fn attempt(c: &Case, env: &Env) -> (Result<Result<bool, &'static str>, String>, f64) {
     let mut settings = LdapConnSettings::new().set_starttls(c.starttls);
     if let Some(ms) = c.timeout_ms {
-        settings = settings.set_conn_timeout(Duration::from_millis(ms));
+        settings = settings.set_conn_timeout(if ms == u64::MAX { Duration::MAX } else { Duration::from_millis(ms) });
     }
     match c.pre {
         Pre::None => {}
@@ -262,9 +262,12 @@ pub fn run(tier: Tier) -> i32 {
             for port in ["absent", "open", "closed"] {
                 for starttls in [false, true] {
                     for pre in pres {
-                        for timeout_ms in [None, Some(3000u64)] {
+                        for timeout_ms in [None, Some(3000u64), Some(u64::MAX)] {
                             for sync_api in [false, true] {
                                 if tier == Tier::Quick && timeout_ms.is_some() && (pre != Pre::None || sync_api) {
+                                    continue;
+                                }
+                                if timeout_ms == Some(u64::MAX) && tier == Tier::Quick && (starttls || host == "name.invalid") {
                                     continue;
                                 }
                                 let portnum = match port {
